@@ -352,6 +352,7 @@ def ew2(f):
                 dt = "float" if "float" in (a.dtype, b.dtype) else a.dtype
                 if a.concrete_len():
                     return Arr(a.length, elems=[f(a.get(k), b.get(k)) for k in range(a.length)], dtype=dt)
+                a, b = ops._snap(a), ops._snap(b)
                 return Arr(a.length, fn=lambda i: f(a.get(i), b.get(i)), dtype=dt)
             if isinstance(a, Arr):
                 dt = "float" if "float" in (a.dtype, ops.dtype_of_scalar(b)) else a.dtype
@@ -396,6 +397,8 @@ def install(interp):
     reg("empty", lambda ctx, n, dtype=None: full(ctx, n, Fraction(0), dtype or "float"))
     reg("full", lambda ctx, n, v, dtype=None: full(ctx, n, v if dtype is not None or not isinstance(v, int) or isinstance(v, bool) else v, dtype))
     reg("zeros_like", lambda ctx, x, dtype=None: full(ctx, length_like(x), 0, dtype or like_dtype(x)))
+    # (contents of np.empty_like are unspecified; what matters to the contracts is its length and its DTYPE)
+    reg("empty_like", lambda ctx, x, dtype=None: full(ctx, length_like(x), 0, dtype or like_dtype(x)))
     reg("ones_like", lambda ctx, x, dtype=None: full(ctx, length_like(x), 1, dtype or like_dtype(x)))
     reg("full_like", lambda ctx, x, v, dtype=None: full(ctx, length_like(x), v, dtype or like_dtype(x)))
 
@@ -418,6 +421,8 @@ def install(interp):
                 cond = Arr(ref.length, fn=lambda i: c, dtype="bool")
             else:
                 return ops.ite(c, x, y)
+
+        cond, x, y = ops._snap(cond), ops._snap(x), ops._snap(y)
 
         def pick(i):
             xv = x.get(i) if isinstance(x, Arr) else x
@@ -620,6 +625,7 @@ def install(interp):
             els = [I.binop("-", a.get(k + 1), a.get(k)) for k in range(a.length - 1)]
             return Arr(len(els), elems=els, dtype=a.dtype)
         ln = ops.smax(ops.scalar_binop("-", a.length, 1), 0)
+        a = ops._snap(a)
         return Arr(ln, fn=lambda i: I.binop("-", a.get(i + 1), a.get(i)), dtype=a.dtype)
 
     reg("diff", diff)
